@@ -38,6 +38,19 @@ ConfigsThorough == ConfigsQuick \cup
                  C(14, 4, 4, <<TRUE, TRUE>>, 0, BodyLocate)}
 ConfigsLive == {C(2, 2, 2, <<TRUE>>, 1, BodySum1), C(4, 2, 2, <<TRUE, TRUE>>, 2, BodySum2), C(7, 3, 2, <<TRUE, TRUE>>, 0, BodyLocate)}
 
+\* S->C replay into the real code (forking is slow: mostly two processes)
+ConfigsReplay == {C(31, 2, 3, <<TRUE>>, 1, BodySum1),
+                  C(32, 2, 2, <<TRUE, TRUE>>, 2, BodySum2),
+                  C(33, 2, 2, <<TRUE, TRUE>>, 2, BodyTwoLocks),
+                  C(34, 2, 3, <<TRUE, TRUE>>, 0, BodyLocate),
+                  C(35, 3, 3, <<TRUE, TRUE>>, 2, BodyAcc2),
+                  C(37, 1, 2, <<TRUE>>, 1, BodySum1)}
+
+\* controls for the replay: bodies that are wrong on purpose (a private result array, an
+\* unlocked accumulation).  The model predicts the lost updates, the real memory must show them.
+ConfigsReplayBad == {C(41, 2, 2, <<FALSE, TRUE>>, 1, <<St("rmw", 1, <<>>), St("rmw", 2, <<1>>)>>),
+                     C(42, 2, 3, <<TRUE>>, 0, BodyNoLock)}
+
 \* mutants (each must violate the named property)
 ConfigsNoLock == {C(21, 2, 2, <<TRUE>>, 1, BodyNoLock)}
 ConfigsWrongLock == {C(22, 2, 2, <<TRUE>>, 2, BodyWrongLock)}
@@ -48,5 +61,6 @@ ConfigsSmall == {C(2, 2, 3, <<TRUE>>, 1, BodySum1), C(3, 3, 3, <<TRUE>>, 1, Body
 
 \* fault plans
 PlansAny == {{}}
-PlansSim == {{}, 2..5, 6..9, 10..14, 15..20, 21..27, 28..36, 37..50, 51..70, {4, 5, 6, 30, 31, 32}, {12, 13, 14, 44, 45, 46}}
+\* ({1000}, {1001}, ...: no fault at all in behaviours shorter than that)
+PlansSim == {{1000}, {1001}, {1002}, {}, 2..5, 6..9, 10..14, 15..20, 21..27, 28..36, 37..50, 51..70, {4, 5, 6, 30, 31, 32}, {12, 13, 14, 44, 45, 46}}
 =============================================================================
